@@ -8,6 +8,8 @@
          -> one group per S: <RET>[;EV:<id>][;MS][;ST] ... | q=<ext_quiescentb> sq=<ext_strictly_quiescentb>
             int=<internal events taken> ext=<external events taken>
      macro <E<id>|I<id>|R<id>,...|->   -> macrostep_okb (E external event processed, I internal, R raised)
+     skeleton                          -> which control-model variant the regenerated landmark sequences of the two
+                                          engines correspond to (recheck switch 0|1, or none)
      gate <string over e,t,x>          -> gate_okb (e: an event-less transition became enabled, t: it was taken,
                                           x: an external event was taken) *)
 open Vmodel
@@ -89,6 +91,9 @@ let handle (line:string) : string =
       let l = List.filter_map (fun ch -> match ch with 'e' -> Some GEnabled | 't' -> Some GTaken | 'x' -> Some GExt | _ -> None)
           (List.init (String.length toks) (String.get toks)) in
       b2s (gate_okb l)
+  | ["skeleton"] ->
+      let f l = match skeleton_recheck l with Some true -> "1" | Some false -> "0" | None -> "none" in
+      Printf.sprintf "large=%s fast=%s" (f large_landmarks) (f fast_landmarks)
   | _ -> "ERR unknown command"
 
 let () = main_loop handle
